@@ -190,6 +190,18 @@ def oracle(doc, sp, text, info, with_tools=None):
                     got, _ = from_corrections(w.get("corrections") or [])
                     if got != want:
                         fails.append((classify("write-strict.corrections", want, got), f"octave_write(lenient=false).corrections: {diff(want, got)} | text={text!r}"))
+                # a hand-written file already on disk: normalize mode, its dry run, and a write of the identical text report
+                # the same receipts as a first write of that text
+                if "\r" not in text:
+                    p3 = os.path.join(root, "hand.oct.md")
+                    for view, kw in (("write-normalize-dry", {"corrections_only": True}), ("write-same-content", {"content": text, "corrections_only": True}), ("write-normalize", {})):
+                        with open(p3, "w", encoding="utf-8", newline="") as fh:
+                            fh.write(text)
+                        w = tools.write(target_path=p3, **kw)
+                        if w.get("status") == "success":
+                            got, _ = from_corrections(w.get("corrections") or [])
+                            if got != want:
+                                fails.append((classify(view + ".corrections", want, got), f"octave_write({view}) on a hand-written file: {diff(want, got)} | text={text!r}"))
     seen = {}
     for s, d in fails:
         seen.setdefault(s, d)
